@@ -209,3 +209,41 @@ sbj_h!(k_subject_probe__subscribe_after_complete, false, |sbj, l1, l2| {
   assert!(l1.count(EV_C) + l1.len() == l1.len() && l1.downstream().0 == l1.count(EV_C), "subject.late: a subscriber that arrived after complete() received a later item");
   assert!(held(&sbj) == 0, "subject.late: the subject holds an observer that subscribed after the terminal");
 });
+
+// re-entrancy with three observers: the FIRST observer's next handler unsubscribes the SECOND one while the subject is multicasting;
+// the THIRD one (which never left) must still get the item, in both iteration orders of the observer map
+macro_rules! sbj3_h {
+  ($name:ident, $rev:expr) => {
+    #[kani::proof]
+    #[kani::unwind(4)]
+    fn $name() {
+      crate::verif_sync::REVERSE_ITER.store($rev, std::sync::atomic::Ordering::Relaxed);
+      let sbj: Subject<'static, u8> = Subject::new();
+      let l1 = Log::new();
+      let l2 = Log::new();
+      let l3 = Log::new();
+      let victim: &'static Slot<Subscription<'static>> = Slot::new();
+      // registration order a, b, c; with $rev the multicast visits c, b, a
+      let killer = move |log: &'static Log| {
+        move |x: u8| {
+          log.push(EV_N | x as u32);
+          if let Some(s) = victim.get() {
+            s.unsubscribe();
+          }
+        }
+      };
+      let _sa = sbj.observable().subscribe(killer(l1), move |e: RxError| l1.push(EV_E), move || l1.push(EV_C));
+      let sb = attach(&sbj, l2);
+      let _sc = sbj.observable().subscribe(killer(l3), move |e: RxError| l3.push(EV_E), move || l3.push(EV_C));
+      victim.set(sb.clone());
+      let x: u8 = kani::any();
+      sbj.next(x);
+      assert!(l1.is(&[EV_N | x as u32]), "subject.reenter: an observer that never left lost the item (multicast stopped at an observer unsubscribed during it)");
+      assert!(l3.is(&[EV_N | x as u32]), "subject.reenter: an observer that never left lost the item (multicast stopped at an observer unsubscribed during it)");
+      assert!(held(&sbj) == 2, "subject.drops: the subject still holds the observer that was unsubscribed");
+      kani::cover!(true, "harness reaches its end");
+    }
+  };
+}
+sbj3_h!(k_subject_reenter3__unsub_other_in_next, false);
+sbj3_h!(k_subject_reenter3__unsub_other_in_next_rev, true);
